@@ -16,7 +16,7 @@ EXPLANATION = (
     "path (at most once), removed entries are fired, transferred or re-registered (at least once); the identifier reaching "
     "encode() comes from the allocator, is the one copied to deferred.msgId, is never reassigned, is the registry key and "
     "the callback argument. Decides these structural clauses for all paths; does not explore interleavings. R-FRAME: the premises of the framing lemma (every rule of C03) hold, a necessary condition of anything said about inbound packets. "
-    " R-IDS - C17's allocator rules as the premise of 'the acknowledgement for its identifier': an identifier names at most one unfinished exchange. R-REACH - no acknowledgement handler cancels, without an .active() test, a handle that a retry routine can leave stored after it fired (e.g. by leaving through an exception before re-arming): the AlreadyCalled would precede the callback.")
+    " R-IDS - C17's allocator rules as the premise of 'the acknowledgement for its identifier': an identifier names at most one unfinished exchange. R-REACH - no acknowledgement handler cancels, without an .active() test, a handle that a retry routine can leave stored after it fired (e.g. by leaving through an exception before re-arming): the AlreadyCalled would precede the callback. R-PURGE - C12's Y-MARK / Y-EXEMPT as premise of 'only on the ack': the session code of the CONNACK fails or re-sends only what an earlier connection left behind, never a publish made on this connection.")
 ASSUMPTIONS = ["a broker answers a QoS 1 PUBLISH with PUBACK and a QoS 2 PUBLISH with PUBREC (the property's own quantifier)"]
 
 EXPECT_FIRE = {"windowPublish": "PUBACK", "windowPubRelease": "PUBCOMP", "windowSubscribe": "SUBACK",
